@@ -132,6 +132,7 @@ StepClauses(t, pre, ev) ==
            \cup Cl("Inv_C06_NoOpenNoHold", P(t)!Inv_C06_NoOpenNoHold(I))
            \cup Cl("Inv_C06_HoldLeBalance", P(t)!Inv_C06_HoldLeBalance(I))
            \cup Cl("Inv_C09_TotalFee", P(t)!Inv_C09_TotalFee(I))
+           \cup Cl("Inv_C11_OpenUnpaid", P(t)!Inv_C11_OpenUnpaid(I))
            \cup Cl("Inv_C10_NoLendingNoLoans", Traces[t].cfg.lendMode # "none" \/ Len(I.loans) = 0)
            \cup Cl("Act_C07_RejectedUnchanged", P(t)!Rejected_Unchanged(pre, I, c))
            \cup Cl("Act_C05_Lifecycle", P(t)!Lifecycle_OK(pre, I))
